@@ -25,7 +25,10 @@
    The thread remembers the object it looked up ([MAt k o] ... [MRel o]); note that Unlock
    releases the object found BY ITS OWN LOOK-UP, not the one the thread acquired.
    Ghost: [it_users] (threads between their ilen++ and ilen--), [karr]/[kgrants] (per key, order
-   of arrival at the key mutex / order of grants).  [ilen] is a uint64: decrement wraps. *)
+   of arrival at the key mutex / order of grants).
+   [ilen] is a uint64, modelled as an unbounded [Z]: an overflow of ilen++ would need 2^64 goroutines
+   inside Lock at once (assumption: fewer), and the underflow of ilen-- is excluded by
+   C13_fifomap_count (an entry that exists has ilen >= 1). *)
 From Kit Require Export C13.Common.
 
 Inductive mpc :=
@@ -56,8 +59,6 @@ Inductive mev :=
 Definition minit : mstate :=
   mkm (fun _ => None) (fun _ => ch_empty) 0%nat (fun _ => MIdle) false (fun _ => []) (fun _ => []).
 
-Definition wrap64 (z : Z) : Z := z mod 18446744073709551616.
-
 Definition mstep (s : mstate) (e : mev) : option mstate :=
   if mpanic s then None else
   match e with
@@ -66,7 +67,7 @@ Definition mstep (s : mstate) (e : mev) : option mstate :=
       | MIdle =>
           match items s k with
           | Some it =>
-              Some (mkm (upd (items s) k (Some (mkit (it_obj it) (wrap64 (it_len it + 1)) (t :: it_users it))))
+              Some (mkm (upd (items s) k (Some (mkit (it_obj it) (it_len it + 1)%Z (t :: it_users it))))
                         (objs s) (next s) (upd (mpcs s) t (MAt k (it_obj it))) false (karr s) (kgrants s))
           | None =>
               let o := next s in
@@ -94,7 +95,7 @@ Definition mstep (s : mstate) (e : mev) : option mstate :=
           | None =>                                         (* m == nil: m.ilen-- panics *)
               Some (mkm (items s) (objs s) (next s) (mpcs s) true (karr s) (kgrants s))
           | Some it =>
-              let n := wrap64 (it_len it - 1) in
+              let n := (it_len it - 1)%Z in
               let users := remz t (it_users it) in
               Some (mkm (upd (items s) k (if Z.eqb n 0 then None
                                           else Some (mkit (it_obj it) n users)))
